@@ -100,7 +100,94 @@ def run_partition(pieces, threshold, ids):
     return calls
 
 
+def int_constants(repo_files, floor=4096):
+    """integer constants (also constant products / shifts / powers) written in the given source files: sizes at which the
+    code may behave differently"""
+    import ast
+    import os
+
+    from harness import REPO
+
+    found = set()
+
+    def ev(node):
+        if isinstance(node, ast.Constant) and isinstance(node.value, int) and not isinstance(node.value, bool):
+            return node.value
+        if isinstance(node, ast.BinOp) and isinstance(node.op, (ast.Mult, ast.LShift, ast.Pow, ast.Add)):
+            a, b = ev(node.left), ev(node.right)
+            if a is None or b is None:
+                return None
+            try:
+                if isinstance(node.op, ast.Mult):
+                    return a * b
+                if isinstance(node.op, ast.Add):
+                    return a + b
+                if isinstance(node.op, ast.LShift):
+                    return a << b if 0 <= b < 64 else None
+                return a ** b if 0 <= b < 64 and abs(a) < 2 ** 16 else None
+            except Exception:  # noqa
+                return None
+        return None
+
+    for rel in repo_files:
+        path = os.path.join(REPO, rel)
+        try:
+            tree = ast.parse(open(path, encoding="utf-8").read())
+        except Exception:  # noqa
+            continue
+        for node in ast.walk(tree):
+            v = ev(node)
+            if v is not None and floor <= v <= 2 ** 29:
+                found.add(v)
+    return sorted(found)
+
+
+def run_long(case, outcome):
+    """messages around a size named by a constant in the source, threshold disabled; the stream is described to the
+    specification by its lengths only"""
+    from indi.transport import Buffer
+
+    n = case["payload"]
+    body1 = '<setBLOBVector device="CCD" name="IMG" state="Ok"><oneBLOB name="i" size="%d" format=".x">%s</oneBLOB></setBLOBVector>' % (n // 4 * 3, "A" * n)
+    body2 = '<setTextVector device="CCD" name="T" state="Ok"><oneText name="t">after</oneText></setTextVector>'
+    gap = '<?xml version="1.0"?>\n'
+    stream = gap + body1 + "\n" + gap + body2 + "\n"
+    cuts = [c for c in case["cuts"] if 0 < c < len(stream)]
+    pieces = cuts_to_pieces(stream, cuts)
+    b = Buffer()
+    b.max_buffer_size_before_frontal_cleanup = None
+    calls = []
+    for piece in pieces:
+        got = []
+        b.append(piece)
+        with time_limit(300):
+            b.process(got.append)
+        calls.append([1 if getattr(m, "name", None) == "IMG" and len(m.children) == 1 and len(m.children[0].value or "") == n else 2 if getattr(m, "name", None) == "T" else 99
+                      for m in got])
+    outcome.count("long-message-chars", len(body1))
+    outcome.nontrivial.add(("long", n, tuple(cuts)))
+    segs = "2 %d %d %d %d" % (len(gap), len(body1), 1 + len(gap), len(body2))
+    return [Query("spec buf02len %s %s" % (segs, enc_list(str, [len(p) for p in pieces])), " | ".join(",".join(str(i) for i in c) for c in calls), "oracle",
+                  "C02 with the threshold disabled: a message of %d characters (a size named by a constant in the source) is not delivered whole, once, at the call its last character arrives" % len(body1))]
+
+
+def gen_c02_constants(rng, tier):
+    """sizes named by integer constants in the framing and transport code (none in the version the checks were developed
+    against: the generator is then empty)"""
+    files = ["indi/transport/buffer.py", "indi/transport/server/tcp.py", "indi/transport/server/tty.py", "indi/transport/client/tcp.py"]
+    for c in int_constants(files):
+        if c > 2 ** 28:
+            continue
+        for payload in (c + 4096, c - 4096 - 400):
+            payload = max(8, payload // 4 * 4)
+            total = payload + 300
+            yield {"op": "buflong", "payload": payload, "cuts": [total // 2, total - 50]}
+            yield {"op": "buflong", "payload": payload, "cuts": [c + 1, c + 2048]}
+
+
 def run_impl(case, outcome):
+    if case.get("op") == "buflong":
+        return run_long(case, outcome)
     stream = case["stream"]
     T = case["threshold"]
     ids = {}
